@@ -122,9 +122,8 @@ Proof.
   induction ts as [|t r IH]; intros tags voice acc; [reflexivity|]. destruct t as [raw|n a raw|n a raw|n raw|raw]; cbn [vtt_toks_c vtt_toks]; try apply IH.
   - destruct (vtt_match_tag raw) as [[name cls] annot]. destruct (str_eqb name n_v); apply IH.
   - destruct tags as [|t0 tr]; [cbn [length Nat.ltb Nat.leb removelast]; apply IH|].
-    change (Nat.ltb 0 (length (t0 :: tr))) with true. cbv iota. unfold slice_to.
-    destruct (Nat.leb (length (t0 :: tr) - 1) (length (t0 :: tr))) eqn:E; [|apply Nat.leb_gt in E; lia].
-    cbn [bind]. rewrite IH. do 2 f_equal. rewrite removelast_firstn_len. f_equal; lia.
+    change (Nat.ltb 0 (length (t0 :: tr))) with true. cbv iota.
+    rewrite (slice_to_pred_removelast (t0 :: tr) 364) by discriminate. cbn [bind]. apply IH.
 Qed.
 Lemma parse_text_vtt_ok line tags : parse_text_vtt_c line tags = Ok (parse_text_vtt line tags).
 Proof.
@@ -165,19 +164,99 @@ Theorem read_vtt_c_ok data : read_vtt_c data = read_vtt data.
 Proof. apply read_vtt_lines_c_ok. Qed.
 
 (* ---- the writer ---- *)
+(* the index loops of the writer are the structural iterations of Model/Vtt.v *)
+Lemma common_prefix_nil_r a : common_prefix a [] = O.
+Proof. destruct a; reflexivity. Qed.
+Lemma common_prefix_loop_ok fuel : forall n a b, (length a - n <= fuel)%nat ->
+  common_prefix_loop_c fuel n a b = Ok (n + common_prefix (skipn n a) (skipn n b))%nat.
+Proof.
+  induction fuel as [|fuel IH]; intros n a b Hf.
+  - cbn [common_prefix_loop_c]. rewrite (skipn_all2 a) by lia. cbn [common_prefix]. f_equal; lia.
+  - cbn [common_prefix_loop_c]. destruct (Nat.ltb n (length a)) eqn:Ea; cbn [andb].
+    + destruct (Nat.ltb n (length b)) eqn:Eb.
+      * apply Nat.ltb_lt in Ea, Eb.
+        destruct (nth_error a n) as [x|] eqn:Ex; [|apply nth_error_None in Ex; lia].
+        destruct (nth_error b n) as [y|] eqn:Ey; [|apply nth_error_None in Ey; lia].
+        unfold index. rewrite Ex, Ey. cbn [bind]. rewrite (skipn_nth a n x Ex), (skipn_nth b n y Ey). cbn [common_prefix].
+        destruct (str_eqb (tag_start x) (tag_start y)); [rewrite IH by lia; f_equal; lia | f_equal; lia].
+      * apply Nat.ltb_ge in Eb. rewrite (skipn_all2 b) by lia. rewrite common_prefix_nil_r. f_equal; lia.
+    + apply Nat.ltb_ge in Ea. rewrite (skipn_all2 a) by lia. cbn [common_prefix]. f_equal; lia.
+Qed.
+Lemma common_prefix_c_ok a b : common_prefix_c a b = Ok (common_prefix a b).
+Proof. unfold common_prefix_c. rewrite common_prefix_loop_ok by lia. reflexivity. Qed.
+Lemma tags_open_ok fuel : forall idx tags, (length tags - idx <= fuel)%nat ->
+  tags_open_c fuel idx tags = Ok (concat (map tag_start (skipn idx tags))).
+Proof.
+  induction fuel as [|fuel IH]; intros idx tags Hf.
+  - cbn [tags_open_c]. rewrite skipn_all2 by lia. reflexivity.
+  - cbn [tags_open_c]. destruct (Nat.ltb idx (length tags)) eqn:E.
+    + apply Nat.ltb_lt in E. destruct (nth_error tags idx) as [t|] eqn:Et; [|apply nth_error_None in Et; lia].
+      unfold index. rewrite Et. cbn [bind]. rewrite IH by lia. cbn [bind]. rewrite (skipn_nth tags idx t Et). reflexivity.
+    + apply Nat.ltb_ge in E. rewrite skipn_all2 by lia. reflexivity.
+Qed.
+Lemma firstn_S_nth {A} (l : list A) i x : nth_error l i = Some x -> firstn (S i) l = firstn i l ++ [x].
+Proof.
+  revert i. induction l as [|y l IH]; intros i H; [destruct i; discriminate|]. destruct i as [|i].
+  - cbn in H. injection H as ->. reflexivity.
+  - cbn [nth_error] in H. change (firstn (S (S i)) (y :: l)) with (y :: firstn (S i) l). rewrite (IH i H). reflexivity.
+Qed.
+Lemma tags_close_ok k : forall left tags, (k <= length tags)%nat ->
+  tags_close_c k left tags = Ok (concat (map tag_end (rev (skipn left (firstn k tags))))).
+Proof.
+  induction k as [|idx IH]; intros left tags Hk.
+  - cbn [tags_close_c firstn]. rewrite skipn_nil. reflexivity.
+  - cbn [tags_close_c]. destruct (nth_error tags idx) as [t|] eqn:Et; [|apply nth_error_None in Et; lia].
+    rewrite (firstn_S_nth tags idx t Et). destruct (Nat.leb left idx) eqn:E.
+    + apply Nat.leb_le in E. unfold index. rewrite Et. cbn [bind]. rewrite IH by lia. cbn [bind].
+      rewrite skipn_app, firstn_length, Nat.min_l by lia. replace (left - idx)%nat with O by lia. cbn [skipn].
+      rewrite rev_app_distr. reflexivity.
+    + apply Nat.leb_gt in E. rewrite skipn_all2; [reflexivity|]. rewrite app_length, firstn_length, Nat.min_l by lia. cbn [length]. lia.
+Qed.
 Lemma vrun_bytes_ok prev next r : vrun_bytes_c prev next r = Ok (vrun_bytes prev next r).
 Proof.
-  unfold vrun_bytes_c, vrun_bytes, run_tags. destruct r as [tx tg tm co].
-  destruct prev as [[ptx ptg ptm pco]|]; destruct next as [[ntx ntg ntm nco]|]; cbn [vr_text vr_tags vr_time vr_color];
-    destruct co as [c|]; destruct tg as [tg|]; try destruct ptg as [pt|]; try destruct ntg as [nt|];
-    cbn [is_some deref bind]; reflexivity.
+  unfold vrun_bytes_c, vrun_bytes, run_tags.
+  assert (Ec : (if is_some (vr_color r) then do c <- deref (vr_color r) 674; Ok (css_color c) else Ok []) =
+               Ok (match vr_color r with Some c => css_color c | None => [] end)) by (destruct (vr_color r); reflexivity).
+  assert (Et : (if is_some (vr_tags r) then deref (vr_tags r) 685 else Ok []) =
+               Ok (match vr_tags r with Some t => t | None => [] end)) by (destruct (vr_tags r); reflexivity).
+  rewrite Ec, Et. cbn [bind]. set (tags := match vr_tags r with Some t => t | None => [] end).
+  assert (Eo : (if is_some prev then do p <- deref prev 688;
+                  if is_some (vr_tags p) then do pt <- deref (vr_tags p) 689; common_prefix_c pt tags else Ok O else Ok O) =
+               Ok (match prev with Some p => match vr_tags p with Some pt => common_prefix pt tags | None => O end | None => O end)).
+  { destruct prev as [p|]; cbn [is_some deref bind]; [|reflexivity].
+    destruct (vr_tags p) as [pt|]; cbn [is_some deref bind]; [apply common_prefix_c_ok | reflexivity]. }
+  assert (El : (if is_some next then do n <- deref next 691;
+                  if is_some (vr_tags n) then do nt <- deref (vr_tags n) 692; common_prefix_c tags nt else Ok O else Ok O) =
+               Ok (match next with Some n => match vr_tags n with Some nt => common_prefix tags nt | None => O end | None => O end)).
+  { destruct next as [n|]; cbn [is_some deref bind]; [|reflexivity].
+    destruct (vr_tags n) as [nt|]; cbn [is_some deref bind]; [apply common_prefix_c_ok | reflexivity]. }
+  rewrite Eo, El. cbn [bind]. rewrite tags_open_ok by lia. cbn [bind]. rewrite tags_close_ok by lia. cbn [bind].
+  rewrite firstn_all. reflexivity.
 Qed.
-Lemma vruns_bytes_ok rs : forall prev, vruns_bytes_c prev rs = Ok (vruns_bytes prev rs).
+Definition prev_at (items : list vrun) (idx : nat) : option vrun := match idx with O => None | S k => nth_error items k end.
+Lemma vruns_loop_ok fuel : forall idx items, (length items - idx <= fuel)%nat ->
+  vruns_loop_c fuel idx items = Ok (vruns_bytes (prev_at items idx) (skipn idx items)).
 Proof.
-  induction rs as [|r rest IH]; intros prev; [reflexivity|]. cbn [vruns_bytes_c vruns_bytes]. rewrite vrun_bytes_ok, IH. reflexivity.
+  induction fuel as [|fuel IH]; intros idx items Hf.
+  - cbn [vruns_loop_c]. rewrite skipn_all2 by lia. reflexivity.
+  - cbn [vruns_loop_c]. destruct (Nat.ltb idx (length items)) eqn:E.
+    + apply Nat.ltb_lt in E. destruct (nth_error items idx) as [cur|] eqn:Ecur; [|apply nth_error_None in Ecur; lia].
+      assert (Ep : (if Nat.ltb 0 idx then do k <- idx_pred idx 659; do p <- index items k 659; Ok (Some p) else Ok None) =
+                   Ok (prev_at items idx)).
+      { destruct idx as [|k]; [reflexivity|]. cbn [Nat.ltb Nat.leb idx_pred bind prev_at].
+        destruct (nth_error items k) as [p|] eqn:Ek; [|apply nth_error_None in Ek; lia]. unfold index. rewrite Ek. reflexivity. }
+      assert (En : (if Nat.ltb idx (length items - 1) then do n <- index items (S idx) 662; Ok (Some n) else Ok None) =
+                   Ok (match skipn (S idx) items with n :: _ => Some n | [] => None end)).
+      { destruct (Nat.ltb idx (length items - 1)) eqn:E1.
+        - apply Nat.ltb_lt in E1. destruct (nth_error items (S idx)) as [n|] eqn:Es; [|apply nth_error_None in Es; lia].
+          unfold index. rewrite Es. cbn [bind]. rewrite (skipn_nth items (S idx) n Es). reflexivity.
+        - apply Nat.ltb_ge in E1. rewrite skipn_all2 by lia. reflexivity. }
+      rewrite Ep, En. cbn [bind]. unfold index. rewrite Ecur. cbn [bind]. rewrite vrun_bytes_ok. cbn [bind].
+      rewrite IH by lia. cbn [bind]. rewrite (skipn_nth items idx cur Ecur). cbn [vruns_bytes prev_at]. rewrite Ecur. reflexivity.
+    + apply Nat.ltb_ge in E. rewrite skipn_all2 by lia. reflexivity.
 Qed.
 Lemma vline_bytes_ok l : vline_bytes_c l = Ok (vline_bytes l).
-Proof. unfold vline_bytes_c, vline_bytes. rewrite vruns_bytes_ok. reflexivity. Qed.
+Proof. unfold vline_bytes_c, vline_bytes. rewrite vruns_loop_ok by lia. reflexivity. Qed.
 Lemma vlines_bytes_ok ls : vlines_bytes_c ls = Ok (concat (map vline_bytes ls)).
 Proof. induction ls as [|l t IH]; [reflexivity|]. cbn [vlines_bytes_c map concat]. rewrite vline_bytes_ok, IH. reflexivity. Qed.
 Lemma vitem_settings_ok it : vitem_settings_c it = Ok (vitem_settings it).
@@ -218,10 +297,8 @@ Proof.
   assert (Ets : (if is_some (vd_tsmap d) then do m <- deref (vd_tsmap d) 483; Ok ([10] ++ tsmap_string m) else Ok []) =
                 Ok (match vd_tsmap d with Some m => [10] ++ tsmap_string m | None => [] end)).
   { destruct (vd_tsmap d); reflexivity. }
-  rewrite Ets, styles_ok, regions_bytes_ok, vitems_bytes_ok. cbn [bind]. unfold slice_to.
-  match goal with |- (if Nat.leb (length ?c - 1) (length ?c) then _ else _) = _ => set (C := c) end.
-  destruct (Nat.leb (length C - 1) (length C)) eqn:E; [|apply Nat.leb_gt in E; lia].
-  f_equal. rewrite removelast_firstn_len. f_equal; lia.
+  rewrite Ets, styles_ok, regions_bytes_ok, vitems_bytes_ok. cbn [bind].
+  apply slice_to_pred_removelast. unfold p_webvtt. discriminate.
 Qed.
 
 (* ---- totality, now with content: no panic site of webvtt.go is reachable ---- *)
